@@ -55,10 +55,10 @@ CHECKS["C17"] = dict(
           "hypothesis left except that argsort sorts (SortsBy, evaluated BY LEAN on the real argsort output of every generated case, "
           "together with PartsOK on the real partitions). agg_face_real_corners composes C02 and C17: on every standard-form table the "
           "aggregation of face f is the reduction over exactly the real corners of row f, for any sorting permutation of the derived counts. The model loop is run by the driver with exact integer reductions and must "
-          "equal the implementation; all ten reductions are compared with NumPy's reduction over the element's own nodes."),
-    note=_TB + "Modelled, not verified: NumPy fancy indexing and the reductions themselves (parameters), np.argsort/np.unique/"
+          "equal the implementation; The ten reductions are explicit exact functions over Q (Aggregate.core; std by its square, ddof as passed): red_perm_invariant / accepts_perm_invariant (value and verdict depend only on the multiset of the row, hence agg_corner_order_irrelevant and agg_edge_orientation_irrelevant), red_min_max_sort_spec, judge_accepts_exact, judge_exact_ops (exact equality for min/max/all/any), judgeRows_iff, loop_rows_are_corner_rows, agg_face_local (no other node contributes), agg_edge_real_endpoints (C02 o C17 for edges), agg_subgrid_commutes(_std). THE VERDICT on every output of every reduction is Lean's: inputs and outputs cross as exact rationals, the driver reduces exactly the element's corner values and decides accepts (rounding allowance from the row length and Sum|x|); NumPy on the element's own nodes only cross-checks that model. std/var are run with ddof 0 and 1 (kwargs), sources NumPy- and dask-backed; StdForm/EdgesSound are decided by Lean on the real tables; the dispatch table and the method->np.<f> table are regenerated from the source by ast and compared with the Lean tables."),
+    note=_TB + "Modelled, not verified: NumPy fancy indexing (Lean gathers the rows itself; tied differentially); float64 evaluation of the reductions (bounded by the allowance `tol`, a standard forward-error bound with spare room, not proved against IEEE semantics; measured worst deviation/allowance 0.30 over 60 000 random rows); NaN/inf data are outside the rational model; np.argsort/np.unique/np.cumsum as before (PartsOK/SortsBy decided per case). The ast table check fails (correspondence) on any refactor of _uxda_grid_aggregate / NUMPY_AGGREGATIONS / topological_* it cannot read, np.argsort/np.unique/"
          "np.cumsum inside get_face_node_partitions (validated per case by the Lean predicate PartsOK).",
-    technique="Lean 4 theorem (any reduction, any partition meeting a Lean-evaluated hypothesis) + differential correspondence",
+    technique="Lean 4 theorems (any reduction; ten reductions exact over Q, permutation-invariant) + Lean-decided float clause on exact rationals + differential correspondence",
 )
 
 NOT_APPLICABLE = {}
